@@ -12,7 +12,16 @@ for d in sorted(glob.glob('/verif/seeded/*/')):
     files = ', '.join(m.get('files_touched', []))
     cr = m.get('check_result', {})
     rows.append((sid, m.get('property'), files, what.replace('\n', ' ')[:230], needs.replace('\n', ' ')[:200], cr.get('verdict'), cr.get('detail', '').replace('\n', ' ')[:260]))
-print('| id | property | site | what breaks | needs, to manifest | result | how the check reports it |')
-print('|---|---|---|---|---|---|---|')
-for r in rows:
-    print('| ' + ' | '.join(str(x).replace('|', '\\|') for x in r) + ' |')
+import sys
+if '--full' in sys.argv:
+    print('| id | property | site | what breaks | needs, to manifest | result | how the check reports it |')
+    print('|---|---|---|---|---|---|---|')
+    for r in rows:
+        print('| ' + ' | '.join(str(x).replace('|', '\\|') for x in r) + ' |')
+else:  # compact form for DESIGN.md (details: seeded/<id>/meta.json)
+    print('| id | site | what breaks / what it needs | result of the property\'s check |')
+    print('|---|---|---|---|')
+    for sid, prop, files, what, needs, verdict, detail in rows:
+        files = ', '.join(f.split('/')[-1] if len(f) > 40 else f for f in files.split(', '))
+        cell = (what[:120] + ' — needs: ' + needs[:110]).replace('|', '\\|')
+        print(f"| {sid} | {files} | {cell} | {detail[:200].replace('|', chr(92) + '|')} |".replace('\n', ' '))
